@@ -26,6 +26,11 @@ def S(id, props, patch, expect, note="", silent=()):
         TWINS.append(dict(id=id + "-silent", props=list(silent), edits=[], patch=patch, note=note))
 
 
+def TP(id, props, patch, note=""):
+    """A behaviour-preserving change kept as a patch file (selftest/patches/): every listed check stays silent."""
+    TWINS.append(dict(id=id, props=list(props), edits=[], patch=patch, note=note))
+
+
 VM = "src/microjs/vm.py"
 CO = "src/microjs/compiler.py"
 CX = "src/microjs/context.py"
@@ -519,10 +524,10 @@ S("seed-C09-a", ["C09"], "seeded/C09-a/patch.diff", [("C09", "C09-R4", "snapshot
 S("seed-C10-a", ["C10"], "seeded/C10-a/patch.diff", [("C10", "C10-R2a", "matcher-loop")])
 S("seed-C11-a", ["C11"], "seeded/C11-a/patch.diff", [("C11", "C11-R5b", "seen-set-scope")])
 S("seed-C12-a", ["C12"], "seeded/C12-a/patch.diff", [("C12", "C12-R3", "_current_vm|_vm")])
-S("seed-C13-a", ["C13"], "seeded/C13-a/patch.diff", [], note="documented gap: an off-by-one in a comment-scanning offset is a value-level change")
+S("seed-C13-a", ["C13"], "seeded/C13-a/patch.diff", [], silent=["C04"], note="documented gap: an off-by-one in a comment-scanning offset is a value-level change")
 S("seed-C14-a", ["C14"], "seeded/C14-a/patch.diff", [("C14", "C14-R1", "16-bit")])
 S("seed-C15-a", ["C15"], "seeded/C15-a/patch.diff", [("C15", "C15-R1b", "num_locals")])
-S("seed-C16-a", ["C16"], "seeded/C16-a/patch.diff", [], note="documented gap: which replacement patterns expand is a value-level table")
+S("seed-C16-a", ["C16"], "seeded/C16-a/patch.diff", [], silent=["C03", "C04"], note="documented gap: which replacement patterns expand is a value-level table")
 S("seed-C17-a", ["C17"], "seeded/C17-a/patch.diff", [("C17", "C17-R8", "field-alias")], silent=["C04"], note="C04 must stay silent")
 S("seed-C18-a", ["C18"], "seeded/C18-a/patch.diff", [], note="documented gap: the exponent threshold is a numeric constant")
 S("seed-C19-a", ["C19"], "seeded/C19-a/patch.diff", [("C19", "C19-R4b", "guard-state")])
@@ -680,7 +685,7 @@ T("t-fp-parser-paren-depth-truthiness", ["C04"], PA,
 S("seed-C10-b", ["C10"], "seeded/C10-b/patch.diff", [("C10", "C10-R5", "_count_capture_groups:while")], silent=[], note="pre-scan loop adds 1 to a str.find result that may be -1")
 S("seed-C17-b", ["C17"], "seeded/C17-b/patch.diff", [("C17", "C17-R10", "reduce_fn:alias-across-callback")], silent=["C04"], note="local alias of arr._elements kept across the callback")
 S("seed-C03-b", ["C03"], "seeded/C03-b/patch.diff", [("C03", "C03-R7", "handle_replacement")], note="capture groups passed to the replacer un-normalised (None)")
-S("seed-C08-b", ["C08"], "seeded/C08-b/patch.diff", [("C08", "C08-R8", "typeof(result)~object")], note="typeof-based objectness test accepts null")
+S("seed-C08-b", ["C08"], "seeded/C08-b/patch.diff", [("C08", "C08-R8", "_execute_opcode:typeof")], note="typeof-based objectness test accepts null")
 S("seed-C15-b", ["C15"], "seeded/C15-b/patch.diff", [("C15", "C15-R1c", "transfer:js_func._closure_cells")], note="child closure reuses the parent's cell list: positions follow two different list(set) orders")
 M("c15-cells-indexed-by-wrong-table", ["C15"], VM,
   "                            idx = frame.func.free_vars.index(var_name)\n                            closure_cells.append(frame.closure_cells[idx])",
@@ -698,3 +703,12 @@ M("c02-nested-vm-does-not-adopt-depth", ["C02"], CX,
   "            vm.start_time = self._current_vm.start_time\n            vm.host_depth = self._current_vm.host_depth\n        else:",
   "            vm.start_time = self._current_vm.start_time\n        else:",
   [("C02", "C02-R3c", "adopts-host_depth")], note="host-driven call path no longer counts its nesting")
+
+ALL_PROPS = ["C%02d" % i for i in range(1, 21)]
+TP("t-context-vm-factory-refactor", ALL_PROPS, "selftest/patches/t-context-vm-factory-refactor.diff",
+   note="interpreter creation moved into Context._new_vm, the current-VM pointer managed by a try/finally context manager (the repaired form of seed C12-b)")
+S("seed-C12-b", ["C12"], "seeded/C12-b/patch.diff", [("C12", "C12-R3", "_running:_current_vm")], silent=["C01", "C04", "C07", "C02"], note="current-VM pointer restored by a context manager without try/finally")
+S("seed-C19-b", ["C19"], "seeded/C19-b/patch.diff", [("C19", "C19-R4", "serialize")], note="array members serialised before the cycle guard is entered")
+S("seed-C05-c", ["C05"], "seeded/C05-c/patch.diff", [("C05", "C05-R3", "")], note="")
+S("seed-C09-b", ["C09"], "seeded/C09-b/patch.diff", [("C09", "C09-R4", "")], note="")
+S("seed-C20-b", ["C20"], "seeded/C20-b/patch.diff", [("C20", "C20-R2", "")], note="")
